@@ -26,6 +26,7 @@ pub struct LawRun {
     pub prim_execs: u64,
     pub prim_nodes: u64,
     pub prim_eps: (f64, f64),
+    pub skipped_time_cap: u64,
 }
 
 pub fn run_law(prop: &str, tier: Tier, seed: u64, extra: Vec<Case>) -> LawRun {
@@ -38,8 +39,17 @@ pub fn run_law(prop: &str, tier: Tier, seed: u64, extra: Vec<Case>) -> LawRun {
     let macros = Mutex::new(ma);
     let mut cases: Vec<Case> = all_cases(tier, seed).into_iter().filter(|c| select(prop, c)).collect();
     cases.extend(extra);
-    let outcomes: Vec<LawOutcome> = cases.par_iter().filter_map(|c| check_case(c, &macros, tier)).collect();
-    LawRun { outcomes, prim_execs, prim_nodes, prim_eps }
+    // overall wall-clock cap: cases not started before it are skipped and counted (a cap is never a verdict)
+    let global = std::time::Instant::now() + std::time::Duration::from_secs(if tier == Tier::Quick { 300 } else { 3000 });
+    let skipped = std::sync::atomic::AtomicU64::new(0);
+    let outcomes: Vec<LawOutcome> = cases.par_iter().filter_map(|c| {
+        if std::time::Instant::now() > global {
+            skipped.fetch_add(1, std::sync::atomic::Ordering::Relaxed);
+            return None;
+        }
+        check_case(c, &macros, tier)
+    }).collect();
+    LawRun { outcomes, prim_execs, prim_nodes, prim_eps, skipped_time_cap: skipped.into_inner() }
 }
 
 pub fn report_law(rep: &Report, prop: &str, run: &LawRun) {
@@ -87,6 +97,8 @@ pub fn report_law(rep: &Report, prop: &str, run: &LawRun) {
     rep.set("cases_judged", json!(judged));
     rep.set("cases_not_judged", json!(unjudged));
     rep.set("tail_checkpoints_unresolved", json!(unresolved));
+    rep.set("cases_skipped_by_the_wall_clock_cap", json!(run.skipped_time_cap));
+    rep.set("cases_cut_short_by_budget_or_time", json!(run.outcomes.iter().filter(|o| o.cnt.budget_hit).count()));
     rep.set("primitive_eps_normal_exp", json!([run.prim_eps.0, run.prim_eps.1]));
     rep.set("exhaustive", json!(false));
     let samples: Vec<_> = worst.iter().take(12).map(|o| outcome_json(o)).collect();
